@@ -65,13 +65,25 @@ Definition feasible_upto (p : nat) (X : list (list float)) (lam : float) (nu : l
   forallb (fun j => fle (fabs (dot F (col F j X) nu))
                         (lam * (1 + 0x1p-40) + 0x1p-44 * absdot (col F j X) nu)) (seq 0 p).
 
+(* none of the `fuel` trial steps s, beta*s, ... is certainly acceptable (the line search ran out of its budget) *)
+Fixpoint ls_all_rejected (fuel : nat) (X : list (list float)) (yc : list float) (lam t : float)
+         (w u dx du : list float) (phi gdx slack s : float) : bool :=
+  match fuel with
+  | O => true
+  | S fuel' => negb (ls_accept X yc lam t w u dx du phi gdx s (- slack)) &&
+               ls_all_rejected fuel' X yc lam t w u dx du phi gdx slack (c_beta F * s)
+  end.
+
 Definition tolK : float := 0x1.12e0be826d695p-30.   (* 1e-9 *)
 Definition tolP : float := 0x1.ad7f29abcaf48p-24.   (* 1e-7 *)
 Definition one_plus : float := 1 + 0x1p-40.
 
 (* ---------- one recorded iteration ---------- *)
+(* `errored`: this is the last recorded iteration of a run that left through `Err` (the linear solver
+   refused its tolerance, or the line search exhausted its 100 steps) *)
 Definition check_iter (X : list (list float)) (yc : list float) (lam tol : float)
-           (ntiter : nat) (dobj_prev : float) (r : it_rec) (next : option it_rec) (wfinal : option (list float)) : bool :=
+           (ntiter : nat) (dobj_prev : float) (r : it_rec) (next : option it_rec) (wfinal : option (list float))
+           (errored : bool) : bool :=
   let p := length (r_w r) in
   let g := gap_stage F X yc lam (r_w r) dobj_prev in
   let sc := fmax1 (r_pobj r) in
@@ -88,6 +100,7 @@ Definition check_iter (X : list (list float)) (yc : list float) (lam tol : float
   fle (r_dobj r) (r_pobj r + tolK * sc) &&
   flt 0 (r_tb r) &&
   (if r_stopped r then
+     negb errored &&
      match next with None => true | Some _ => false end &&
      match wfinal with Some wf => vsame wf (r_w r) | None => true end
    else
@@ -100,6 +113,19 @@ Definition check_iter (X : list (list float)) (yc : list float) (lam tol : float
      let phi := phi_of F X yc lam (r_t r) (r_w r) (r_u r) in
      let gdx := dot F (nw_grad nw) (r_dxu r) in
      let slack := tolK * (1 + fabs phi + fabs (sumlogneg F (r_w r) (r_u r) / r_t r)) in
+     if errored then
+       (* Err from solve_mut (`tol <= 0`; nothing after it was recorded) or from the line search *)
+       let nw0 := newton_system F X lam t (r_w r) (r_u r) (g_z g) in
+       let pcgtol0 := pcg_tolerance F ntiter (r_pitr0 r) (r_gap r) (nw_grad nw0) in
+       match next with None => true | Some _ => false end &&
+       (fle pcgtol0 0 ||
+        (feq t (r_t r) && feq_tol tolK pcgtol (r_pcgtol r) &&
+         match solve_mut F (ip_mat_vec F p ata nw) (ip_precond F p nw) (nw_grad nw) (r_dxu_in r) (r_pcgtol r) pcgmaxi with
+         | None => false
+         | Some (err, dxu) => vclose tolP dxu (r_dxu r) && feq_tol tolP err (r_pcg_err r)
+         end &&
+         ls_all_rejected ls_fuel X yc lam (r_t r) (r_w r) (r_u r) dx du phi gdx slack 1))
+     else
      feq t (r_t r) &&
      feq_tol tolK pcgtol (r_pcgtol r) &&
      match solve_mut F (ip_mat_vec F p ata nw) (ip_precond F p nw) (nw_grad nw) (r_dxu_in r) (r_pcgtol r) pcgmaxi with
@@ -118,13 +144,14 @@ Definition check_iter (X : list (list float)) (yc : list float) (lam tol : float
      end).
 
 Fixpoint check_iters (X : list (list float)) (yc : list float) (lam tol : float)
-         (ntiter : nat) (dobj_prev : float) (its : list it_rec) (wfinal : option (list float)) : bool :=
+         (ntiter : nat) (dobj_prev : float) (its : list it_rec) (wfinal : option (list float)) (errored : bool) : bool :=
   match its with
   | [] => true
   | r :: rest =>
     check_iter X yc lam tol ntiter dobj_prev r (hd_error rest)
-               (match rest with [] => wfinal | _ => None end) &&
-    check_iters X yc lam tol (S ntiter) (r_dobj r) rest wfinal
+               (match rest with [] => wfinal | _ => None end)
+               (match rest with [] => errored | _ => false end) &&
+    check_iters X yc lam tol (S ntiter) (r_dobj r) rest wfinal errored
   end.
 
 (* the whole recorded run of optimize on the matrix X it was handed *)
@@ -145,11 +172,12 @@ Definition check_run (X : list (list float)) (run : run_rec) : bool :=
   (match n_exit run with
    | 0%N => last_stopped
    | 1%N => negb last_stopped && Nat.eqb nit (N.to_nat (n_max_iter run))
-   | _ => true
+   | _ => negb last_stopped && Nat.ltb 0 nit
    end) &&
   Nat.leb nit (N.to_nat (n_max_iter run)) &&
   check_iters X (n_y run) lam (n_tol run) 0 0 its
-              (match n_exit run with 2%N => None | _ => Some (n_wfinal run) end).
+              (match n_exit run with 2%N => None | _ => Some (n_wfinal run) end)
+              (match n_exit run with 2%N => true | _ => false end).
 
 Definition eps64 : float := c_eps F.
 Definition vclose12 := vclose 0x1.19799812dea11p-40.   (* 1e-12 *)
